@@ -89,6 +89,9 @@ def run(chk, tier, only_rule=None):
             if ok: chk.ok('R16.3', site, {'fact': name})
             else: chk.fail('R16.3', site, fn['file'], fn['l'], msg, None, fn['q'])
     r16_5(chk, facts)
+    # the algorithm copies, compares and re-inserts basic_json values: its result is the RFC's only if those operations are value-exact
+    from . import c09
+    c09.value_semantics(chk, tier)
 
 def r16_5(chk, facts):
     """from_diff: the three emissions and their exact guard chains."""
